@@ -113,6 +113,56 @@ func (e *Enc) resolveName(name string, b *ssa.BasicBlock, idx int, st *State) (e
 			}
 		}
 	}
+	if name == "rangevisited" || name == "rangehad" {
+		// visited set / initial key set of the map range loop stepped in (or around) b
+		pick := func(nx *ssa.Next) (envEntry, bool) {
+			it := e.iterInfo[nx.Iter]
+			if it == nil || it.Vis == "" {
+				return envEntry{}, false
+			}
+			k := it.Vis
+			if name == "rangehad" {
+				k = it.Had
+			}
+			if t, ok := st.ghost[k]; ok {
+				return envEntry{V: &Val{L: []string{t}, Math: "set"}}, true
+			}
+			return envEntry{}, false
+		}
+		for _, ins := range b.Instrs {
+			if nx, ok := ins.(*ssa.Next); ok {
+				if r, ok := pick(nx); ok {
+					return r, true
+				}
+			}
+		}
+		var best *loopInfo
+		for _, li := range e.loops {
+			if li.Body[b] && (best == nil || len(li.Body) < len(best.Body)) {
+				has := false
+				for _, ins := range li.Header.Instrs {
+					if nx, ok := ins.(*ssa.Next); ok {
+						if _, ok := pick(nx); ok {
+							has = true
+						}
+					}
+				}
+				if has {
+					best = li
+				}
+			}
+		}
+		if best != nil {
+			for _, ins := range best.Header.Instrs {
+				if nx, ok := ins.(*ssa.Next); ok {
+					if r, ok := pick(nx); ok {
+						return r, true
+					}
+				}
+			}
+		}
+		return envEntry{}, false
+	}
 	if name == "rangeval" || name == "rangekey" {
 		// the element / key produced by the innermost enclosing `range` over a string or map
 		var best *ssa.Next
@@ -1070,6 +1120,22 @@ func (e *Enc) evalCallSpec(x SCall, ctx *specCtx) *Val {
 			st = ctx.old
 		}
 		return mathBool(e.heldTerm(st, mu))
+	case "visited", "rangehad":
+		// visited(k): key k has been produced by the enclosing map range loop;
+		// rangehad(k): k was a key of the map when that range statement started
+		name := "rangevisited"
+		if x.Fn == "rangehad" {
+			name = "rangehad"
+		}
+		if ctx.resolve == nil {
+			panic(encErr(x.Fn + "(k) is only meaningful inside a map range loop"))
+		}
+		ent, ok := ctx.resolve(name)
+		if !ok {
+			panic(encErr(x.Fn + "(k): no tracked map range loop here (the loop may delete from the map, or keys are not scalars)"))
+		}
+		k := e.evalSpec(x.Args[0], ctx)
+		return mathBool("(select " + ent.V.L[0] + " " + k.L[0] + ")")
 	case "heldany":
 		// heldany(T.mu): the mutex mu of the (single) T instance is held by this goroutine
 		// (type-level flag used by `guarded ... by (T).mu`)
@@ -1713,6 +1779,18 @@ func (e *Enc) evalDesignator(x SExpr, ctx *specCtx) *designator {
 			return &designator{kind: "ghost", ghost: "g:" + x.Name}
 		}
 	case SCall:
+		if x.Fn == "anyrow" && len(x.Args) == 1 {
+			// anyrow(s): every element of every backing array with the element type of
+			// the slice expression s (coarse: for slices reached through a loop-dependent
+			// index, e.g. c.cells[i].sequences)
+			v := e.evalSpec(x.Args[0], ctx)
+			if v.T != nil {
+				if sl, ok := v.T.Underlying().(*types.Slice); ok {
+					return &designator{kind: "anyrow", T: sl.Elem()}
+				}
+			}
+			e.fail("anyrow(s): s must be a slice expression")
+		}
 		if x.Fn == "boxed" && len(x.Args) == 1 {
 			// the object pointed to by the pointer held in an interface value
 			v := e.evalSpec(x.Args[0], ctx)
